@@ -31,7 +31,7 @@ func init() {
 	histChecks["C01"] = func(tier string) []*hist.Scenario {
 		return []*hist.Scenario{
 			{
-				ID: "C01/plain+filtered+prune", Prop: "C01", Depth: d(tier, 4, 6), Drain: true,
+				ID: "C01/plain+filtered+prune", Prop: "C01", Depth: d(tier, 5, 7), Drain: true,
 				Cfg: model.Cfg{Topics: []string{"T0"}, Subs: []model.SubCfg{
 					{Name: "S0", Topic: "T0"},
 					{Name: "S1", Topic: "T0", Filter: fX},
@@ -46,7 +46,7 @@ func init() {
 				},
 			},
 			{
-				ID: "C01/deadletter", Prop: "C01", Depth: d(tier, 5, 7), Drain: true,
+				ID: "C01/deadletter", Prop: "C01", Depth: d(tier, 7, 9), Drain: true,
 				Cfg: model.Cfg{Topics: []string{"T0", "TD"}, Subs: []model.SubCfg{
 					{Name: "S0", Topic: "T0", DLTopic: "TD", MaxAttempts: 2},
 					{Name: "SD", Topic: "TD"},
@@ -60,7 +60,7 @@ func init() {
 				},
 			},
 			{
-				ID: "C01/lifecycle+seek+retention", Prop: "C01", Depth: d(tier, 4, 6), Drain: true,
+				ID: "C01/lifecycle+seek+retention", Prop: "C01", Depth: d(tier, 5, 6), Drain: true,
 				Cfg: model.Cfg{Topics: []string{"T0"}, Subs: []model.SubCfg{
 					{Name: "S0", Topic: "T0", Ordered: true, Retention: 10 * time.Minute},
 					{Name: "S1", Topic: "T0", Retention: 40 * time.Second},
@@ -77,7 +77,22 @@ func init() {
 				},
 			},
 			{
-				ID: "C01/siblings+snapshot-seek", Prop: "C01", Depth: d(tier, 6, 8), Drain: true,
+				ID: "C01/topic-recreated-under-subscriptions", Prop: "C01", Depth: d(tier, 5, 6), Drain: true,
+				Cfg: model.Cfg{Topics: []string{"T0"}, Subs: []model.SubCfg{
+					{Name: "S0", Topic: "T0"},
+					{Name: "S1", Topic: "T0", Ordered: true},
+				}},
+				Alphabet: []model.Op{
+					pub1("T0", "K1", 0), pubN("T0", "", "K1"),
+					pull("S0", 1), pull("S0", 10), pull("S1", 10),
+					ack("S0", "oldest"), ack("S1", "oldest"), nack("S0", "all"),
+					delTopic("T0"), mkTopic("T0"), delSub("S1"), mkSub("S1"),
+					tick("lease+"),
+					job("prune-deleted-topics", 0, 100), job("prune-completed-messages", 0, 100), job("prune-deleted-subscription-deliveries", 0, 100), job("prune-deleted-subscriptions", 0, 100),
+				},
+			},
+			{
+				ID: "C01/siblings+snapshot-seek", Prop: "C01", Depth: d(tier, 7, 9), Drain: true,
 				Cfg: model.Cfg{Topics: []string{"T0"}, Subs: []model.SubCfg{
 					{Name: "S0", Topic: "T0"},
 					{Name: "S1", Topic: "T0"},
@@ -97,7 +112,7 @@ func init() {
 	histChecks["C02"] = func(tier string) []*hist.Scenario {
 		return []*hist.Scenario{
 			{
-				ID: "C02/two-topics-three-subs", Prop: "C02", Depth: d(tier, 4, 6), Drain: true,
+				ID: "C02/two-topics-three-subs", Prop: "C02", Depth: d(tier, 5, 6), Drain: true,
 				Cfg: model.Cfg{Topics: []string{"T0", "T1"}, Subs: []model.SubCfg{
 					{Name: "S0", Topic: "T0"},
 					{Name: "S1", Topic: "T0", Filter: fX},
@@ -114,7 +129,7 @@ func init() {
 				},
 			},
 			{
-				ID: "C02/deadletter-forwarding", Prop: "C02", Depth: d(tier, 5, 7), Drain: true,
+				ID: "C02/deadletter-forwarding", Prop: "C02", Depth: d(tier, 6, 7), Drain: true,
 				Cfg: model.Cfg{Topics: []string{"T0", "TD"}, Subs: []model.SubCfg{
 					{Name: "S0", Topic: "T0", DLTopic: "TD", MaxAttempts: 1},
 					{Name: "S1", Topic: "T0"},
@@ -135,7 +150,7 @@ func init() {
 	histChecks["C03"] = func(tier string) []*hist.Scenario {
 		return []*hist.Scenario{
 			{
-				ID: "C03/ordered+dl and filtered", Prop: "C03", Depth: d(tier, 5, 7), Drain: true,
+				ID: "C03/ordered+dl and filtered", Prop: "C03", Depth: d(tier, 7, 9), Drain: true,
 				Cfg: model.Cfg{Topics: []string{"T0", "TD"}, Subs: []model.SubCfg{
 					{Name: "S0", Topic: "T0", Ordered: true, DLTopic: "TD", MaxAttempts: 2},
 					{Name: "S1", Topic: "T0", Filter: fX},
@@ -152,7 +167,7 @@ func init() {
 				},
 			},
 			{
-				ID: "C03/foreign-ids", Prop: "C03", Depth: d(tier, 5, 6), Drain: true,
+				ID: "C03/foreign-ids", Prop: "C03", Depth: d(tier, 7, 9), Drain: true,
 				Cfg: model.Cfg{Topics: []string{"T0"}, Subs: []model.SubCfg{
 					{Name: "S0", Topic: "T0"},
 					{Name: "S1", Topic: "T0"},
@@ -260,7 +275,7 @@ func init() {
 				continue
 			}
 			out = append(out, &hist.Scenario{
-				ID: "C06/N" + string(rune('0'+n)) + "-two-dl-subs", Prop: "C06", Depth: d(tier, 5, 7), Drain: true,
+				ID: "C06/N" + string(rune('0'+n)) + "-two-dl-subs", Prop: "C06", Depth: d(tier, 6, 7), Drain: true,
 				Cfg: model.Cfg{Topics: []string{"T0", "TD"}, Subs: []model.SubCfg{
 					{Name: "S0", Topic: "T0", DLTopic: "TD", MaxAttempts: n},
 					{Name: "SD", Topic: "TD"},
@@ -271,15 +286,15 @@ func init() {
 		}
 		out = append(out,
 			&hist.Scenario{
-				ID: "C06/no-dl-subscriber+deleted-topic", Prop: "C06", Depth: d(tier, 5, 7), Drain: true,
+				ID: "C06/no-dl-subscriber+deleted-topic", Prop: "C06", Depth: d(tier, 6, 8), Drain: true,
 				Cfg: model.Cfg{Topics: []string{"T0", "TD"}, Subs: []model.SubCfg{
 					{Name: "S0", Topic: "T0", DLTopic: "TD", MaxAttempts: 1},
 					{Name: "SD", Topic: "TD"},
 				}},
-				Alphabet: alpha(delTopic("TD"), delSub("SD"), pull("SD", 10)),
+				Alphabet: alpha(delTopic("TD"), mkTopic("TD"), delSub("SD"), mkSub("SD"), pull("SD", 10)),
 			},
 			&hist.Scenario{
-				ID: "C06/chain+ordered-dl", Prop: "C06", Depth: d(tier, 5, 7), Drain: true,
+				ID: "C06/chain+ordered-dl", Prop: "C06", Depth: d(tier, 7, 9), Drain: true,
 				Cfg: model.Cfg{Topics: []string{"T0", "TD", "TE"}, Subs: []model.SubCfg{
 					{Name: "S0", Topic: "T0", DLTopic: "TD", MaxAttempts: 1},
 					{Name: "SD", Topic: "TD", DLTopic: "TE", MaxAttempts: 1, Ordered: true},
@@ -301,7 +316,7 @@ func init() {
 	histChecks["C13"] = func(tier string) []*hist.Scenario {
 		return []*hist.Scenario{
 			{
-				ID: "C13/siblings", Prop: "C13", Depth: d(tier, 5, 7), Drain: true,
+				ID: "C13/siblings", Prop: "C13", Depth: d(tier, 6, 7), Drain: true,
 				Cfg: model.Cfg{Topics: []string{"T0", "T1"}, Subs: []model.SubCfg{
 					{Name: "S0", Topic: "T0"},
 					{Name: "S1", Topic: "T0"},
@@ -340,7 +355,7 @@ func init() {
 	histChecks["C14"] = func(tier string) []*hist.Scenario {
 		return []*hist.Scenario{
 			{
-				ID: "C14/retention+ttl", Prop: "C14", Depth: d(tier, 5, 7), Drain: true,
+				ID: "C14/retention+ttl", Prop: "C14", Depth: d(tier, 6, 7), Drain: true,
 				Cfg: model.Cfg{Topics: []string{"T0"}, Subs: []model.SubCfg{
 					{Name: "S0", Topic: "T0", Retention: 40 * time.Second, TTL: 2 * time.Minute},
 					{Name: "S1", Topic: "T0", Retention: 10 * time.Minute, TTL: time.Hour},
@@ -355,7 +370,7 @@ func init() {
 				},
 			},
 			{
-				ID: "C14/delay", Prop: "C14", Depth: d(tier, 5, 7), Drain: true,
+				ID: "C14/delay", Prop: "C14", Depth: d(tier, 7, 9), Drain: true,
 				Cfg: model.Cfg{Topics: []string{"T0", "TD"}, Subs: []model.SubCfg{
 					{Name: "S0", Topic: "T0", Delay: 20 * time.Second, Retention: 5 * time.Minute, DLTopic: "TD", MaxAttempts: 1},
 					{Name: "SD", Topic: "TD", Delay: 20 * time.Second},
@@ -401,7 +416,7 @@ func init() {
 		b = append(b, jobs(time.Hour, 1, "prune-deleted-subscription-deliveries", "prune-deleted-subscriptions", "prune-deleted-topics")...)
 		return []*hist.Scenario{
 			{
-				ID: "C15/deliveries+messages", Prop: "C15", Depth: d(tier, 4, 6), Drain: true, Converge: true,
+				ID: "C15/deliveries+messages", Prop: "C15", Depth: d(tier, 5, 6), Drain: true, Converge: true,
 				Cfg: model.Cfg{Topics: []string{"T0"}, Subs: []model.SubCfg{
 					{Name: "S0", Topic: "T0", Ordered: true, Retention: 3 * time.Hour},
 					{Name: "S1", Topic: "T0", Filter: fX, Retention: 40 * time.Minute},
